@@ -302,8 +302,7 @@ def jobs(tier):
     for kind in ("md5", "sha1priv") if not quick else ("md5",):
         for nops in (2, 3):
             ax = args(nops, False, discos=False)
-            if quick:
-                ax[0], ax[1] = Arg("boots", 1, 1), Arg("t0", 1, 1)
+            ax[0], ax[1] = Arg("boots", 1, 1), Arg("t0", 1, 1)
             out.append(Job(f"history-{kind}-{nops}ops-explicit-context-engine-id", make_harness(kind, nops, explicit_ctx=True), ax,
                            timeout=600 if quick else 1500, mode="E/concolic-window", functions=tf, sample_every=13))
     for kind in ("md5",) if quick else ("noauth", "md5", "sha1priv"):
